@@ -37,7 +37,8 @@ ASSUMPTIONS = [
 CASES = {'quick': 6000, 'thorough': 90000}
 TIME = {'quick': 75, 'thorough': 560}
 MIN_NONTRIVIAL = {'quick': 500, 'thorough': 4000}
-REQUIRED = ('pluribus_lines_compared', 'acpc_viewer_sequences_compared',
+REQUIRED = ('explicit_hand_numbers_compared', 'pluribus_lines_compared',
+            'acpc_viewer_sequences_compared',
             'loops_closed', 'fixed_limit_hands', 'no_limit_hands',
             'allin_hands', 'showdown_hands', 'folded_out_hands',
             'raise_amounts_rendered', 'min_bet_differs_from_big_blind',
@@ -294,6 +295,28 @@ def check_case(res, rng):
                     f'({len(got)} vs {len(views[p])} messages) || {what}',
                     payload)
                 return
+        # an explicit hand number takes precedence over the history's own
+        # `hand` field (documented: the field is used "if None")
+        other = hand_number + rng.randint(1, 5000)
+        _, line2, views2 = render(s, variant, other, names)
+        p = rng.randrange(cfg['n'])
+        try:
+            got = list(hh.to_acpc_protocol(p, other))
+            got_line = (hh.to_pluribus_protocol(other)
+                        if variant == 'NT' else line2)
+        except Exception as exc:   # noqa: BLE001
+            res.violation(f'protocol output with an explicit hand number '
+                          f'raised {type(exc).__name__}: {exc} || {what}',
+                          payload)
+            return
+        res.counters['explicit_hand_numbers_compared'] += 1
+        if got != views2[p] or got_line != line2:
+            res.violation(
+                f'hand field {hand_number}, explicit hand_number {other}: '
+                f'to_acpc_protocol({p}, {other}) starts {got[:1]!r} / '
+                f'pluribus {got_line[:40]!r}, expected {views2[p][:1]!r} / '
+                f'{line2[:40]!r} || {what}', payload)
+            return
         # loop closure (the protocol line shows every seat's cards and has
         # no way to say "this hand was mucked": hands in which a player
         # mucked a hand the automatic rule would have shown cannot come back
@@ -433,6 +456,13 @@ def replay(payload):
         for p in range(cfg['n']):
             if list(hh.to_acpc_protocol(p)) != views[p]:
                 out.append({'what': f'acpc view {p} differs', 'kf': None})
+        other = payload['hand'] + 17
+        _, line2, views2 = render(final, variant, other,
+                                  payload.get('names'))
+        if list(hh.to_acpc_protocol(0, other)) != views2[0] or (
+                variant == 'NT' and hh.to_pluribus_protocol(other) != line2):
+            out.append({'what': 'an explicit hand number does not take '
+                        'precedence over the hand field', 'kf': None})
         stack = cfg['stacks'][0] if isinstance(cfg['stacks'], list) \
             else cfg['stacks']
         try:
